@@ -12,6 +12,9 @@ PRIMARY = {"taxa": "taxa", "vrnt": "vrnt_name", "trait": "trait"}
 # variants with ids >= BIGPOS_FROM (only ever introduced by later joins) sit beyond the int32 range: a label array that was
 # narrowed to the smallest integer dtype holding its own values must be widened, not wrapped, when such variants are joined
 BIGPOS_FROM, BIGPOS = 215, 3_000_000_000
+# taxa introduced by later joins (ids >= LATE_TAXA) belong to groups 4..7, all larger than the groups 0..3 of the initial taxa
+# and in no particular order among themselves: joining them onto a grouped matrix must not leave stale group partitions behind
+LATE_TAXA = 100
 GROUPABLE = {"taxa": ("taxa_grp", "taxa_grp_"), "vrnt": ("vrnt_chrgrp", "vrnt_chrgrp_")}
 
 
@@ -38,7 +41,7 @@ class Regime:
         k = (lambda i: i % 3) if self.kind == "dup" else (lambda i: i)
         if axis == "taxa":
             d = dict(taxa=numpy.array(["T%03d" % k(i) for i in ids], dtype=object),
-                     taxa_grp=numpy.array([(i * 7) % 4 for i in ids], dtype="int64"))
+                     taxa_grp=numpy.array([(i * 7) % 4 + (4 if i >= LATE_TAXA else 0) for i in ids], dtype="int64"))
             if self.kind == "absent":
                 d["taxa_grp"] = None
             return d
@@ -60,7 +63,7 @@ class Regime:
         """Default sort key of the library: taxa -> (taxa_grp, taxa); vrnt -> (chrgrp, phypos); trait -> (trait,)"""
         k = (i % 3) if self.kind == "dup" else i
         if axis == "taxa":
-            return (("T%03d" % k),) if self.kind == "absent" else ((i * 7) % 4, "T%03d" % k)
+            return (("T%03d" % k),) if self.kind == "absent" else ((i * 7) % 4 + (4 if i >= LATE_TAXA else 0), "T%03d" % k)
         if axis == "vrnt":
             return (i % 3 + 1, i * 13 % 997 + 1 + (BIGPOS if i >= BIGPOS_FROM else 0))
         return ("Y%02d" % k,)
